@@ -405,3 +405,477 @@ Proof. intros H Hi Ho.
       + apply Hi. apply (gwf_in g H) in H0. tauto.
       + apply (gwf_sym g H); auto. }
   intros x Hx. apply Hlt in Hx. lia. Qed.
+
+(* ====================================================================== *)
+(* topo_sort (Kahn by generations)                                         *)
+(* ====================================================================== *)
+Lemma mem_str_cons n c cs : mem_str n (c :: cs) = String.eqb n c || mem_str n cs.
+Proof. reflexivity. Qed.
+Lemma iget_set m c d n : iget (set m c d) n = if String.eqb n c then d else iget m n.
+Proof. apply assoc_set. Qed.
+Lemma filter_len0 {A} (f : A -> bool) l : length (filter f l) = 0 -> forall x, In x l -> f x = false.
+Proof. induction l; simpl; [tauto|]. destruct (f a) eqn:E; simpl; [discriminate|].
+  intros H x [<-|Hx]; auto. Qed.
+Lemma filter_len0' {A} (f : A -> bool) l : (forall x, In x l -> f x = false) -> length (filter f l) = 0.
+Proof. induction l; simpl; auto. intros H. rewrite (H a); auto. Qed.
+
+(* number of predecessors of n not yet in D *)
+Definition cnt (g : graph) (D : list string) (n : string) : nat :=
+  length (filter (fun p => negb (mem_str p D)) (preds g n)).
+
+Lemma cnt_snoc_gen D x l : NoDup l -> ~ In x D ->
+  length (filter (fun p => negb (mem_str p D)) l)
+  = length (filter (fun p => negb (mem_str p (D ++ [x]))) l) + (if mem_str x l then 1 else 0).
+Proof. intros Hnd Hx. induction Hnd as [|a l Hni Hnd IH]; [reflexivity|].
+  cbn [filter]. rewrite (mem_str_cons x a l), mem_str_app, (mem_str_cons a x []).
+  change (mem_str a []) with false. rewrite orb_false_r.
+  destruct (String.eqb_spec x a) as [->|Hn].
+  - apply mem_str_false in Hx. rewrite Hx, String.eqb_refl. cbn [negb orb length].
+    apply mem_str_false in Hni. rewrite Hni in IH. lia.
+  - destruct (String.eqb_spec a x) as [->|_]; [congruence|]. rewrite orb_false_r. cbn [orb].
+    destruct (mem_str a D); cbn [negb length]; lia. Qed.
+Lemma cnt_snoc g D x n : gwf g -> ~ In x D ->
+  cnt g D n = cnt g (D ++ [x]) n + (if mem_str x (preds g n) then 1 else 0).
+Proof. intros H Hx. apply cnt_snoc_gen; auto. apply H. Qed.
+Lemma cnt_nil g n : cnt g [] n = in_degree g n.
+Proof. unfold cnt, in_degree. f_equal. induction (preds g n); simpl; auto. f_equal; auto. Qed.
+Lemma cnt_zero_incl g D n : cnt g D n = 0 -> incl (preds g n) D.
+Proof. intros H p Hp. apply (filter_len0 _ _ H) in Hp. apply mem_str_In.
+  destruct (mem_str p D); auto; discriminate. Qed.
+Lemma incl_cnt_zero g D n : incl (preds g n) D -> cnt g D n = 0.
+Proof. intros H. apply filter_len0'. intros p Hp. apply H, mem_str_In in Hp. rewrite Hp; auto. Qed.
+
+Lemma dec_children_spec cs : NoDup cs -> forall m zero,
+  (forall n, iget (fst (dec_children m zero cs)) n = if mem_str n cs then iget m n - 1 else iget m n) /\
+  snd (dec_children m zero cs) = zero ++ filter (fun c => iget m c - 1 =? 0) cs.
+Proof. induction 1 as [|c cs Hni Hnd IH]; intros m zero; simpl.
+  - split; auto. rewrite app_nil_r; auto.
+  - assert (Hf : forall d, filter (fun c0 => iget (set m c d) c0 - 1 =? 0) cs
+                           = filter (fun c0 => iget m c0 - 1 =? 0) cs).
+    { intros d. apply filter_ext_in. intros a Ha. rewrite iget_set.
+      destruct (String.eqb_spec a c); auto. subst; tauto. }
+    assert (Hg : forall d n, iget m c - 1 = d ->
+       (if mem_str n cs then iget (set m c d) n - 1 else iget (set m c d) n)
+       = if mem_str n (c :: cs) then iget m n - 1 else iget m n).
+    { intros d n Hd. rewrite mem_str_cons, iget_set. destruct (String.eqb_spec n c) as [->|Hn]; simpl; auto.
+      apply mem_str_false in Hni. rewrite Hni. auto. }
+    destruct (iget m c - 1 =? 0) eqn:E.
+    + destruct (IH (set m c 0) (zero ++ [c])) as [H1 H2]. split.
+      * intros n. rewrite H1. apply Hg. apply Nat.eqb_eq in E. auto.
+      * rewrite H2, Hf, <- app_assoc. auto.
+    + destruct (IH (set m c (iget m c - 1)) zero) as [H1 H2]. split.
+      * intros n. rewrite H1. apply Hg. auto.
+      * rewrite H2, Hf. auto. Qed.
+
+Definition kinv (g : graph) (m : imap) (D Z : list string) : Prop :=
+  NoDup (D ++ Z) /\ incl (D ++ Z) (g_nodes g) /\
+  (forall n, In n (g_nodes g) -> iget m n = cnt g D n) /\
+  (forall n, In n (g_nodes g) -> (In n (D ++ Z) <-> cnt g D n = 0)) /\
+  ordered_by (preds g) D.
+
+Lemma kahn_node_step g m D x Z zero m' zero' :
+  gwf g -> kinv g m D (x :: Z) ->
+  dec_children m zero (succs g x) = (m', zero') ->
+  exists new, zero' = zero ++ new /\ kinv g m' (D ++ [x]) (Z ++ new).
+Proof. intros H [Hnd [Hincl [Hget [Hzero Hord]]]] Hdc.
+  destruct (dec_children_spec (succs g x) (gwf_snd g H x) m zero) as [Hm Hz].
+  rewrite Hdc in Hm, Hz. simpl in Hm, Hz.
+  exists (filter (fun c => iget m c - 1 =? 0) (succs g x)). split; auto.
+  set (new := filter (fun c => iget m c - 1 =? 0) (succs g x)).
+  assert (Hxn : In x (g_nodes g)) by (apply Hincl, in_or_app; right; left; auto).
+  assert (HxD : ~ In x D).
+  { apply NoDup_app_inv in Hnd. destruct Hnd as [_ [_ Hd]]. intros Hc. apply (Hd x Hc). left; auto. }
+  assert (Hx0 : cnt g D x = 0) by (apply Hzero; auto; apply in_or_app; right; left; auto).
+  assert (Hc1 : forall c, In c (succs g x) -> In c (g_nodes g) /\ cnt g D c = cnt g (D ++ [x]) c + 1).
+  { intros c Hc. split; [apply (gwf_in g H) in Hc; tauto|].
+    rewrite (cnt_snoc g D x c H HxD). apply (gwf_sym g H), mem_str_In in Hc. rewrite Hc. auto. }
+  assert (Hc2 : forall n, ~ In n (succs g x) -> cnt g D n = cnt g (D ++ [x]) n).
+  { intros n Hn. rewrite (cnt_snoc g D x n H HxD).
+    assert (E : mem_str x (preds g n) = false) by (apply mem_str_false; rewrite <- (gwf_sym g H); auto).
+    rewrite E. lia. }
+  assert (Hc3 : forall c, In c (succs g x) -> ~ In c (D ++ x :: Z)).
+  { intros c Hc Hin. destruct (Hc1 c Hc) as [Hcn Hcc]. apply Hzero in Hin; auto. lia. }
+  assert (Eq : (D ++ [x]) ++ Z ++ new = (D ++ x :: Z) ++ new) by (rewrite <- !app_assoc; reflexivity).
+  unfold kinv. rewrite Eq. split; [|split; [|split; [|split]]].
+  - apply NoDup_app_intro; auto.
+    + apply NoDup_filter, H.
+    + intros y Hy Hy2. apply filter_In in Hy2. apply (Hc3 y); tauto.
+  - apply incl_app; auto. intros y Hy. apply filter_In in Hy. apply Hc1; tauto.
+  - intros n Hn. rewrite Hm, (Hget n Hn). destruct (mem_str n (succs g x)) eqn:E.
+    + apply mem_str_In, Hc1 in E. lia.
+    + apply mem_str_false, Hc2 in E. auto.
+  - intros n Hn. rewrite in_app_iff. destruct (mem_str n (succs g x)) eqn:E.
+    + apply mem_str_In in E. destruct (Hc1 n E) as [_ Hcc]. split.
+      * intros [Hc|Hc]; [exfalso; apply (Hc3 n E); auto|].
+        apply filter_In in Hc. destruct Hc as [_ Hc]. apply Nat.eqb_eq in Hc. rewrite (Hget n Hn) in Hc. lia.
+      * intros Hc. right. apply filter_In. split; auto. apply Nat.eqb_eq. rewrite (Hget n Hn). lia.
+    + apply mem_str_false in E. rewrite <- (Hc2 n E), <- (Hzero n Hn). split; auto.
+      intros [Hc|Hc]; auto. apply filter_In in Hc. tauto.
+  - apply ordered_by_snoc; auto. apply cnt_zero_incl; auto. Qed.
+
+Lemma gen_step_inv g : gwf g -> forall this m D zero m' zero',
+  kinv g m D (this ++ zero) -> gen_step g m zero this = (m', zero') -> kinv g m' (D ++ this) zero'.
+Proof. intros H. induction this as [|x t IH]; intros m D zero m' zero' Hk Hg; simpl in *.
+  - inversion Hg; subst. rewrite app_nil_r. auto.
+  - destruct (dec_children m zero (succs g x)) as [m1 z1] eqn:E.
+    destruct (kahn_node_step g m D x (t ++ zero) zero m1 z1 H Hk E) as [new [-> Hk']].
+    rewrite <- app_assoc in Hk'. specialize (IH _ _ _ _ _ Hk' Hg).
+    rewrite <- app_assoc in IH. auto. Qed.
+
+Lemma kinv_length g m D Z : kinv g m D Z -> length D + length Z <= length (g_nodes g).
+Proof. intros [Hnd [Hi _]]. rewrite <- app_length. apply NoDup_incl_length; auto. Qed.
+
+Lemma kahn_inv g : gwf g -> forall fuel m zero acc,
+  kinv g m acc zero -> length (g_nodes g) < fuel + length acc ->
+  exists m', kinv g m' (kahn fuel g m zero acc) [].
+Proof. intros H. induction fuel as [|f IH]; intros m zero acc Hk Hf.
+  - apply kinv_length in Hk. simpl in Hf. lia.
+  - simpl. destruct zero as [|z zero].
+    + exists m. auto.
+    + destruct (gen_step g m [] (z :: zero)) as [m1 next] eqn:E.
+      assert (Hk' : kinv g m (acc) ((z :: zero) ++ [])) by (rewrite app_nil_r; auto).
+      apply (gen_step_inv g H _ _ _ _ _ _ Hk') in E.
+      apply (IH _ _ _ E). rewrite app_length. simpl. lia. Qed.
+
+Lemma kinv_init g : gwf g ->
+  kinv g (map (fun n => (n, in_degree g n)) (g_nodes g)) [] (filter (fun n => in_degree g n =? 0) (g_nodes g)).
+Proof. intros H. unfold kinv. simpl. split; [|split; [|split; [|split]]].
+  - apply NoDup_filter, H.
+  - intros x Hx. apply filter_In in Hx. tauto.
+  - intros n Hn. unfold iget. rewrite (assoc_map_self 0 (in_degree g)); auto. rewrite cnt_nil; auto.
+  - intros n Hn. rewrite filter_In, cnt_nil, Nat.eqb_eq. tauto.
+  - apply ordered_by_nil. Qed.
+
+Definition kahn_order (g : graph) : list string :=
+  kahn (S (length (g_nodes g))) g (map (fun n => (n, in_degree g n)) (g_nodes g))
+       (filter (fun n => in_degree g n =? 0) (g_nodes g)) [].
+Lemma topo_sort_unfold g :
+  topo_sort g = if length (kahn_order g) =? length (g_nodes g) then Some (kahn_order g) else None.
+Proof. reflexivity. Qed.
+Lemma kahn_order_inv g : gwf g -> exists m, kinv g m (kahn_order g) [].
+Proof. intros H. apply kahn_inv; auto; [apply kinv_init; auto|simpl; lia]. Qed.
+
+(* what Kahn's algorithm outputs, cyclic or not: a duplicate-free list of nodes, each after all of its
+   predecessors, containing exactly the nodes all of whose predecessors it contains *)
+Lemma kahn_order_spec g : gwf g ->
+  NoDup (kahn_order g) /\ incl (kahn_order g) (g_nodes g) /\ ordered_by (preds g) (kahn_order g) /\
+  forall n, In n (g_nodes g) -> (In n (kahn_order g) <-> incl (preds g n) (kahn_order g)).
+Proof. intros H. destruct (kahn_order_inv g H) as [m [Hnd [Hi [_ [Hz Ho]]]]]. rewrite app_nil_r in *.
+  repeat split; auto.
+  - intros Hn. apply cnt_zero_incl. apply Hz; auto.
+  - intros Hn. apply Hz; auto. apply incl_cnt_zero; auto. Qed.
+
+Theorem topo_sort_some g order : gwf g -> topo_sort g = Some order ->
+  Permutation order (g_nodes g) /\ NoDup order /\ ordered_by (preds g) order.
+Proof. intros H. rewrite topo_sort_unfold.
+  destruct (length (kahn_order g) =? length (g_nodes g)) eqn:E; [|discriminate].
+  intros Hs; inversion Hs; subst. apply Nat.eqb_eq in E.
+  destruct (kahn_order_spec g H) as [Hnd [Hi [Ho _]]]. repeat split; auto.
+  apply NoDup_Permutation_bis; auto. lia. Qed.
+
+(* every edge goes forward *)
+Theorem topo_sort_forward g order a b : gwf g -> topo_sort g = Some order -> In b (succs g a) ->
+  idx a order < idx b order /\ exists l1 l2 l3, order = l1 ++ a :: l2 ++ b :: l3.
+Proof. intros H Hs Hab. destruct (topo_sort_some g order H Hs) as [Hp [Hnd Ho]].
+  assert (Hb : In b order).
+  { apply (Permutation_in b (Permutation_sym Hp)). apply (gwf_in g H) in Hab. tauto. }
+  apply (gwf_sym g H) in Hab. split.
+  - apply (ordered_by_idx (preds g)); auto.
+  - apply (ordered_by_split (preds g)); auto. Qed.
+
+Theorem topo_sort_some_acyclic g order : gwf g -> topo_sort g = Some order -> acyclic g.
+Proof. intros H Hs. destruct (topo_sort_some g order H Hs) as [Hp [Hnd Ho]].
+  apply (ordered_acyclic g order); auto. intros x Hx. apply (Permutation_in x (Permutation_sym Hp)); auto. Qed.
+
+Theorem topo_sort_none_cycle g : gwf g -> topo_sort g = None -> exists x, gpath g x x.
+Proof. intros H. rewrite topo_sort_unfold.
+  destruct (length (kahn_order g) =? length (g_nodes g)) eqn:E; [discriminate|]. intros _.
+  apply Nat.eqb_neq in E. destruct (kahn_order_spec g H) as [Hnd [Hi [Ho Hz]]].
+  assert (Hlt : length (kahn_order g) < length (g_nodes g)).
+  { apply (NoDup_incl_length Hnd) in Hi. lia. }
+  apply (pred_closed_cycle g (fun x => In x (g_nodes g) /\ ~ In x (kahn_order g))).
+  - tauto.
+  - intros x [Hx1 Hx2].
+    destruct (existsb (fun p => negb (mem_str p (kahn_order g))) (preds g x)) eqn:Ex.
+    + apply existsb_exists in Ex. destruct Ex as [p [Hp1 Hp2]]. exists p.
+      assert (~ In p (kahn_order g)) by (apply mem_str_false; destruct (mem_str p (kahn_order g)); auto; discriminate).
+      apply (gwf_sym g H) in Hp1. split; auto. split; auto. apply (gwf_in g H) in Hp1. tauto.
+    + exfalso. apply Hx2. apply Hz; auto. intros p Hp. apply mem_str_In.
+      destruct (mem_str p (kahn_order g)) eqn:Ep; auto.
+      assert (existsb (fun p => negb (mem_str p (kahn_order g))) (preds g x) = true).
+      { apply existsb_exists. exists p. rewrite Ep. auto. }
+      congruence.
+  - apply NoDup_shorter_missing; auto. apply H. Qed.
+
+Theorem topo_sort_acyclic_some g : gwf g -> acyclic g -> exists order, topo_sort g = Some order.
+Proof. intros H Ha. destruct (topo_sort g) eqn:E; eauto.
+  apply topo_sort_none_cycle in E; auto. destruct E as [x Hx]. exfalso. apply (Ha x Hx). Qed.
+
+Theorem topo_sort_none_iff g : gwf g -> (topo_sort g = None <-> exists x, gpath g x x).
+Proof. intros H. split; [apply topo_sort_none_cycle; auto|].
+  intros [x Hx]. destruct (topo_sort g) eqn:E; auto.
+  exfalso. apply (topo_sort_some_acyclic g l H E x Hx). Qed.
+
+Theorem is_dag_acyclic g : gwf g -> (is_dag g = true <-> acyclic g).
+Proof. intros H. unfold is_dag. split.
+  - destruct (topo_sort g) eqn:E; [|discriminate]. intros _. eapply topo_sort_some_acyclic; eauto.
+  - intros Ha. destruct (topo_sort_acyclic_some g H Ha) as [o ->]. auto. Qed.
+
+(* ====================================================================== *)
+(* dfs_postorder                                                           *)
+(* ====================================================================== *)
+Definition dfs_child (f : nat) (g : graph) : list string * list string -> string -> list string * list string :=
+  fun '(s, o) c => if mem_str c s then (s, o) else dfs f g c (c :: s) o.
+Lemma dfs_unfold f g n seen out :
+  dfs (S f) g n seen out =
+  (fst (fold_left (dfs_child f g) (succs g n) (seen, out)),
+   snd (fold_left (dfs_child f g) (succs g n) (seen, out)) ++ [n]).
+Proof. simpl. fold (dfs_child f g). destruct (fold_left (dfs_child f g) (succs g n) (seen, out)); auto. Qed.
+
+Definition dinv (g : graph) (s o : list string) : Prop :=
+  NoDup s /\ NoDup o /\ incl o s /\ incl s (g_nodes g) /\ (acyclic g -> ordered_by (succs g) o).
+Definition gray (s o : list string) (y : string) : Prop := In y s /\ ~ In y o.
+
+Definition dfs_post (g : graph) (n : string) (s o s' o' : list string) : Prop :=
+  dinv g s' o' /\ incl s s' /\ incl o o' /\ In n o' /\ (forall y, gray s' o' y <-> gray s o y /\ y <> n).
+Definition dfs_ok (f : nat) (g : graph) : Prop :=
+  forall n s o, dinv g s o -> In n s -> ~ In n o -> length (g_nodes g) < f + length s ->
+    (forall y, gray s o y -> y = n \/ gpath g y n) ->
+    dfs_post g n s o (fst (dfs f g n s o)) (snd (dfs f g n s o)).
+
+Lemma dfs_children_ok f g n : gwf g -> dfs_ok f g ->
+  forall cs s1 o1, incl cs (succs g n) ->
+    dinv g s1 o1 -> In n s1 -> ~ In n o1 -> length (g_nodes g) < S f + length s1 ->
+    (forall y, gray s1 o1 y -> y = n \/ gpath g y n) ->
+    forall s2 o2, fold_left (dfs_child f g) cs (s1, o1) = (s2, o2) ->
+    dinv g s2 o2 /\ incl s1 s2 /\ incl o1 o2 /\ (forall y, gray s2 o2 y <-> gray s1 o1 y) /\
+    (acyclic g -> forall c, In c cs -> In c o2).
+Proof. intros H Hok. induction cs as [|c cs IH]; intros s1 o1 Hcs Hd Hn1 Hn2 Hf Hg s2 o2 Hfold.
+  - simpl in Hfold. inversion Hfold; subst. split; [auto|]. split; [apply incl_refl|]. split; [apply incl_refl|].
+    split; [tauto|]. intros _ c [].
+  - assert (Hc : In c (succs g n)) by (apply Hcs; left; auto).
+    assert (Hcs' : incl cs (succs g n)) by (intros x Hx; apply Hcs; right; auto).
+    simpl in Hfold. destruct (mem_str c s1) eqn:E.
+    + destruct (IH s1 o1 Hcs' Hd Hn1 Hn2 Hf Hg s2 o2 Hfold) as [A1 [A2 [A3 [A4 A5]]]].
+      split; [auto|]. split; [auto|]. split; [auto|]. split; [auto|]. intros Ha x [<-|Hx]; [|apply A5; auto].
+      apply A3. apply mem_str_In in E. destruct (in_dec string_dec c o1) as [Hi|Hi]; auto.
+      exfalso. destruct (Hg c (conj E Hi)) as [->|Hp].
+      * apply (Ha n). apply gp_edge; auto.
+      * apply (Ha c). eapply gpath_snoc; eauto.
+    + apply mem_str_false in E. destruct Hd as [D1 [D2 [D3 [D4 D5]]]].
+      assert (Hcn : In c (g_nodes g)) by (apply (gwf_in g H) in Hc; tauto).
+      assert (Hco : ~ In c o1) by (intros Hx; apply E, D3; auto).
+      assert (Hd' : dinv g (c :: s1) o1).
+      { repeat split; auto.
+        - constructor; auto.
+        - intros x Hx. right; auto.
+        - intros x [<-|Hx]; auto. }
+      assert (Hg' : forall y, gray (c :: s1) o1 y -> y = c \/ gpath g y c).
+      { intros y [[<-|Hy1] Hy2]; auto. right. destruct (Hg y (conj Hy1 Hy2)) as [->|Hp].
+        - apply gp_edge; auto.
+        - eapply gpath_snoc; eauto. }
+      assert (Hf' : length (g_nodes g) < f + length (c :: s1)) by (simpl; lia).
+      pose proof (Hok c (c :: s1) o1 Hd' (or_introl eq_refl) Hco Hf' Hg') as Hpost.
+      destruct (dfs f g c (c :: s1) o1) as [s' o'] eqn:Edfs. simpl in Hpost.
+      destruct Hpost as [B1 [B2 [B3 [B4 B5]]]].
+      assert (Hnc : n <> c) by (intros ->; auto).
+      assert (Hgr : forall y, gray s' o' y <-> gray s1 o1 y).
+      { intros y. rewrite B5. unfold gray. simpl. split.
+        - intros [[[Hy|Hy] Hy2] Hy3]; [congruence|auto].
+        - intros [Hy1 Hy2]. repeat split; auto. intros ->. auto. }
+      assert (Hn1' : In n s') by (apply B2; right; auto).
+      assert (Hn2' : ~ In n o') by (apply (Hgr n); split; auto).
+      assert (Hlen : length (c :: s1) <= length s').
+      { apply NoDup_incl_length; auto. constructor; auto. }
+      assert (Hf2 : length (g_nodes g) < S f + length s') by (simpl in Hlen; lia).
+      assert (Hg2 : forall y, gray s' o' y -> y = n \/ gpath g y n) by (intros y Hy; apply Hg, Hgr; auto).
+      destruct (IH s' o' Hcs' B1 Hn1' Hn2' Hf2 Hg2 s2 o2 Hfold) as [A1 [A2 [A3 [A4 A5]]]].
+      split; [auto|]. split; [intros x Hx; apply A2, B2; right; auto|].
+      split; [intros x Hx; apply A3, B3; auto|]. split.
+      * intros y. rewrite A4. apply Hgr.
+      * intros Ha x [<-|Hx]; [apply A3; auto|apply A5; auto]. Qed.
+
+Lemma dfs_all_ok g : gwf g -> forall f, dfs_ok f g.
+Proof. intros H. induction f as [|f IH]; intros n s o Hd Hn1 Hn2 Hf Hg.
+  - exfalso. destruct Hd as [D1 [_ [_ [D4 _]]]]. apply (NoDup_incl_length D1) in D4. simpl in Hf. lia.
+  - rewrite dfs_unfold. simpl fst. simpl snd.
+    destruct (fold_left (dfs_child f g) (succs g n) (s, o)) as [s2 o2] eqn:E. simpl.
+    destruct (dfs_children_ok f g n H IH (succs g n) s o (incl_refl _) Hd Hn1 Hn2 Hf Hg s2 o2 E)
+      as [[D1 [D2 [D3 [D4 D5]]]] [A2 [A3 [A4 A5]]]].
+    assert (Hno : ~ In n o2) by (apply (A4 n); split; auto).
+    split; [|split; [|split; [|split]]]; auto.
+    + split; [auto|]. split; [apply NoDup_snoc; auto|]. split; [|split; [auto|]].
+      * intros x Hx. apply in_snoc in Hx. destruct Hx as [Hx| ->]; auto.
+      * intros Ha. apply ordered_by_snoc; auto. intros c Hc. apply A5; auto.
+    + intros x Hx. apply in_snoc. left; auto.
+    + apply in_snoc. auto.
+    + intros y. rewrite <- A4. unfold gray. rewrite in_snoc. tauto. Qed.
+
+Definition dfs_root (g : graph) : list string * list string -> string -> list string * list string :=
+  fun '(s, o) n => if mem_str n s then (s, o) else dfs (S (length (g_nodes g))) g n (n :: s) o.
+Lemma dfs_postorder_unfold g : dfs_postorder g = snd (fold_left (dfs_root g) (g_nodes g) ([], [])).
+Proof. reflexivity. Qed.
+
+Lemma dfs_roots_ok g : gwf g -> forall rs s1 o1, incl rs (g_nodes g) ->
+  dinv g s1 o1 -> incl s1 o1 ->
+  forall s2 o2, fold_left (dfs_root g) rs (s1, o1) = (s2, o2) ->
+  dinv g s2 o2 /\ incl s2 o2 /\ incl s1 s2 /\ incl rs s2.
+Proof. intros H. induction rs as [|r rs IH]; intros s1 o1 Hrs Hd Hso s2 o2 Hfold.
+  - simpl in Hfold. inversion Hfold; subst. split; [auto|]. split; [auto|]. split; [apply incl_refl|]. intros x [].
+  - assert (Hr : In r (g_nodes g)) by (apply Hrs; left; auto).
+    assert (Hrs' : incl rs (g_nodes g)) by (intros x Hx; apply Hrs; right; auto).
+    cbn [fold_left] in Hfold.
+    assert (Er : dfs_root g (s1, o1) r
+                 = if mem_str r s1 then (s1, o1) else dfs (S (length (g_nodes g))) g r (r :: s1) o1) by reflexivity.
+    rewrite Er in Hfold. clear Er. destruct (mem_str r s1) eqn:E.
+    + destruct (IH s1 o1 Hrs' Hd Hso s2 o2 Hfold) as [A1 [A2 [A3 A4]]].
+      split; [auto|]. split; [auto|]. split; [auto|].
+      intros x [<-|Hx]; auto. apply A3. apply mem_str_In; auto.
+    + apply mem_str_false in E. destruct Hd as [D1 [D2 [D3 [D4 D5]]]].
+      assert (Hro : ~ In r o1) by (intros Hx; apply E, D3; auto).
+      assert (Hd' : dinv g (r :: s1) o1).
+      { repeat split; auto.
+        - constructor; auto.
+        - intros x Hx. right; auto.
+        - intros x [<-|Hx]; auto. }
+      assert (Hg' : forall y, gray (r :: s1) o1 y -> y = r \/ gpath g y r).
+      { intros y [[<-|Hy1] Hy2]; auto. exfalso. auto. }
+      assert (Hf' : length (g_nodes g) < S (length (g_nodes g)) + length (r :: s1)) by (simpl; lia).
+      pose proof (dfs_all_ok g H _ r (r :: s1) o1 Hd' (or_introl eq_refl) Hro Hf' Hg') as Hpost.
+      destruct (dfs (S (length (g_nodes g))) g r (r :: s1) o1) as [s' o'] eqn:Edfs. cbn [fst snd] in Hpost.
+      destruct Hpost as [B1 [B2 [B3 [B4 B5]]]].
+      assert (Hso' : incl s' o').
+      { intros y Hy. destruct (in_dec string_dec y o') as [Hi|Hi]; auto. exfalso.
+        destruct (proj1 (B5 y) (conj Hy Hi)) as [[[Hy1|Hy1] Hy2] Hy3]; [congruence|auto]. }
+      destruct (IH s' o' Hrs' B1 Hso' s2 o2 Hfold) as [A1 [A2 [A3 A4]]].
+      split; [auto|]. split; [auto|]. split.
+      * intros x Hx. apply A3, B2. right; auto.
+      * intros x [<-|Hx]; auto. apply A3, B2. left; auto. Qed.
+
+Lemma dfs_postorder_inv g : gwf g ->
+  NoDup (dfs_postorder g) /\ (forall x, In x (dfs_postorder g) <-> In x (g_nodes g)) /\
+  (acyclic g -> ordered_by (succs g) (dfs_postorder g)).
+Proof. intros H. rewrite dfs_postorder_unfold.
+  destruct (fold_left (dfs_root g) (g_nodes g) ([], [])) as [s2 o2] eqn:E. simpl.
+  assert (Hd : dinv g [] []).
+  { split; [constructor|]. split; [constructor|]. split; [apply incl_refl|]. split; [intros x []|].
+    intros _. apply ordered_by_nil. }
+  destruct (dfs_roots_ok g H (g_nodes g) [] [] (incl_refl _) Hd (incl_refl _) s2 o2 E)
+    as [[D1 [D2 [D3 [D4 D5]]]] [A2 [A3 A4]]].
+  split; [auto|]. split; [|auto]. intros x. split; intros Hx.
+  - apply D4, D3; auto.
+  - apply A2, A4; auto. Qed.
+
+Theorem dfs_postorder_perm g : gwf g -> Permutation (dfs_postorder g) (g_nodes g).
+Proof. intros H. destruct (dfs_postorder_inv g H) as [H1 [H2 _]]. apply NoDup_Permutation; auto. apply H. Qed.
+Theorem dfs_postorder_nodup g : gwf g -> NoDup (dfs_postorder g).
+Proof. intros H. apply (dfs_postorder_inv g H). Qed.
+Theorem dfs_postorder_in g x : gwf g -> (In x (dfs_postorder g) <-> In x (g_nodes g)).
+Proof. intros H. apply (dfs_postorder_inv g H). Qed.
+(* every node comes after all of its successors *)
+Theorem dfs_postorder_ordered g : gwf g -> acyclic g -> ordered_by (succs g) (dfs_postorder g).
+Proof. intros H. apply (dfs_postorder_inv g H). Qed.
+Theorem dfs_postorder_succ_before g a b : gwf g -> acyclic g -> In b (succs g a) ->
+  idx b (dfs_postorder g) < idx a (dfs_postorder g) /\
+  exists l1 l2 l3, dfs_postorder g = l1 ++ b :: l2 ++ a :: l3.
+Proof. intros H Ha Hab. pose proof (dfs_postorder_ordered g H Ha) as Ho.
+  assert (Hin : In a (dfs_postorder g)).
+  { apply dfs_postorder_in; auto. apply (gwf_in g H) in Hab. tauto. }
+  split; [apply (ordered_by_idx (succs g)); auto|apply (ordered_by_split (succs g)); auto]. Qed.
+
+(* ====================================================================== *)
+(* reach_from                                                              *)
+(* ====================================================================== *)
+Lemma dedup_by_In x l : In x (dedup_by String.eqb l) <-> In x l.
+Proof. induction l as [|a l IH]; simpl; [tauto|]. rewrite filter_In, IH.
+  destruct (String.eqb_spec a x) as [->|Hn]; simpl; [tauto|]. intuition congruence. Qed.
+Lemma dedup_by_NoDup l : NoDup (dedup_by String.eqb l).
+Proof. induction l as [|a l IH]; simpl; constructor.
+  - rewrite filter_In. rewrite String.eqb_refl. simpl. intros [_ Hc]. discriminate.
+  - apply NoDup_filter; auto. Qed.
+
+(* paths of any length (possibly empty) along adj *)
+Inductive rpath (adj : string -> list string) : string -> string -> Prop :=
+| rp_refl x : rpath adj x x
+| rp_step x y z : rpath adj x y -> In z (adj y) -> rpath adj x z.
+Lemma rpath_trans adj a b c : rpath adj a b -> rpath adj b c -> rpath adj a c.
+Proof. intros H1 H2. induction H2; auto. apply (rp_step adj a y z); auto. Qed.
+Lemma rpath_gpath g a b : rpath (succs g) a b <-> a = b \/ gpath g a b.
+Proof. split.
+  - induction 1; auto. right. destruct IHrpath as [->|Hp]; [apply gp_edge; auto|eapply gpath_snoc; eauto].
+  - intros [->|Hp]; [apply rp_refl|]. induction Hp.
+    + eapply rp_step; [apply rp_refl|auto].
+    + eapply rpath_trans; [|eauto]. eapply rp_step; [apply rp_refl|auto]. Qed.
+
+Lemma reach_from_sound adj (R : string -> Prop) :
+  (forall y z, R y -> In z (adj y) -> R z) ->
+  forall fuel fr seen, (forall y, In y fr -> R y) -> (forall y, In y seen -> R y) ->
+  forall y, In y (reach_from fuel adj fr seen) -> R y.
+Proof. intros HR. induction fuel as [|f IH]; intros fr seen Hfr Hseen y; simpl; auto.
+  destruct fr as [|x t]; auto. apply IH.
+  - intros z Hz. apply in_app_iff in Hz. destruct Hz as [Hz|Hz]; [apply Hfr; right; auto|].
+    apply filter_In in Hz. destruct Hz as [Hz _]. rewrite dedup_by_In in Hz.
+    apply (HR x); auto. apply Hfr; left; auto.
+  - intros z Hz. apply in_app_iff in Hz. destruct Hz as [Hz|Hz]; auto.
+    apply filter_In in Hz. destruct Hz as [Hz _]. rewrite dedup_by_In in Hz.
+    apply (HR x); auto. apply Hfr; left; auto. Qed.
+
+Lemma reach_from_mono adj : forall fuel fr seen, incl seen (reach_from fuel adj fr seen).
+Proof. induction fuel as [|f IH]; intros fr seen; simpl; [apply incl_refl|].
+  destruct fr as [|x t]; [apply incl_refl|]. intros y Hy. apply IH. apply in_or_app; auto. Qed.
+
+Lemma reach_from_closed adj U : (forall y, In y U -> incl (adj y) U) ->
+  forall fuel fr seen, NoDup seen -> incl seen U -> incl fr seen ->
+    (forall y, In y seen -> In y fr \/ incl (adj y) seen) ->
+    length fr + length U <= fuel + length seen ->
+    forall y, In y (reach_from fuel adj fr seen) -> incl (adj y) (reach_from fuel adj fr seen).
+Proof. intros HU. induction fuel as [|f IH]; intros fr seen Hnd Hs Hfr Hc Hlen.
+  - assert (fr = []).
+    { apply (NoDup_incl_length Hnd) in Hs. destruct fr; auto. simpl in Hlen. lia. }
+    subst. simpl. intros y Hy. destruct (Hc y Hy) as [[]|]; auto.
+  - simpl. destruct fr as [|x t].
+    + intros y Hy. destruct (Hc y Hy) as [[]|]; auto.
+    + set (new := filter (fun s => negb (mem_str s seen)) (dedup_by String.eqb (adj x))).
+      assert (Hx : In x U) by (apply Hs, Hfr; left; auto).
+      assert (Hnew : forall z, In z new <-> In z (adj x) /\ ~ In z seen).
+      { intros z. unfold new. rewrite filter_In, dedup_by_In, <- mem_str_false.
+        destruct (mem_str z seen); simpl; intuition congruence. }
+      apply IH.
+      * apply NoDup_app_intro; auto.
+        -- apply NoDup_filter, dedup_by_NoDup.
+        -- intros z Hz Hz2. apply Hnew in Hz2. tauto.
+      * apply incl_app; auto. intros z Hz. apply Hnew in Hz. apply (HU x Hx). tauto.
+      * intros z Hz. apply in_app_iff in Hz. apply in_or_app. destruct Hz as [Hz|Hz]; auto.
+        left. apply Hfr. right; auto.
+      * intros y Hy. apply in_app_iff in Hy. destruct Hy as [Hy|Hy].
+        -- destruct (Hc y Hy) as [[<-|Hy2]|Hy2].
+           ++ right. intros z Hz. apply in_or_app. destruct (in_dec string_dec z seen); auto.
+              right. apply Hnew. auto.
+           ++ left. apply in_or_app; auto.
+           ++ right. intros z Hz. apply in_or_app. left. auto.
+        -- left. apply in_or_app; auto.
+      * rewrite !app_length. simpl in Hlen. lia. Qed.
+
+(* soundness and completeness of the bounded search: U is any finite universe closed under adj *)
+Theorem reach_from_spec adj U srcs fuel x :
+  NoDup srcs -> incl srcs U -> (forall y, In y U -> incl (adj y) U) -> length U <= fuel ->
+  (In x (reach_from fuel adj srcs srcs) <-> exists s, In s srcs /\ rpath adj s x).
+Proof. intros Hnd Hs HU Hf. split.
+  - apply (reach_from_sound adj (fun y => exists s, In s srcs /\ rpath adj s y)).
+    + intros y z [s [Hs1 Hs2]] Hz. exists s. split; auto. eapply rp_step; eauto.
+    + intros y Hy. exists y. split; auto. apply rp_refl.
+    + intros y Hy. exists y. split; auto. apply rp_refl.
+  - intros [s [Hs1 Hs2]]. induction Hs2.
+    + apply reach_from_mono; auto.
+    + eapply (reach_from_closed adj U HU fuel srcs srcs); eauto using incl_refl. lia. Qed.
+
+(* the instance used by the loader: a graph search from one node *)
+Corollary reach_from_graph g (adj : string -> list string) p x :
+  gwf g -> In p (g_nodes g) -> (forall y, incl (adj y) (succs g y)) ->
+  (In x (reach_from (S (length (g_nodes g))) adj [p] [p]) <-> rpath adj p x).
+Proof. intros H Hp Hadj. rewrite (reach_from_spec adj (g_nodes g)).
+  - split; [intros [s [[<-|[]] Hs]]; auto|]. intros Hr. exists p. split; auto. left; auto.
+  - repeat constructor. simpl. tauto.
+  - intros y [<-|[]]. auto.
+  - intros y Hy z Hz. apply Hadj in Hz. apply (gwf_in g H) in Hz. tauto.
+  - lia. Qed.
